@@ -55,12 +55,17 @@ type Action struct {
 	Ack   []string `json:"ack,omitempty"`
 	Canon *bool    `json:"canon,omitempty"`
 	Nsr   *int64   `json:"nsr,omitempty"`
+	// Direct: call the message handler on the block context without transaction-level rollback (as a module or a
+	// caller that swallows the error would): a rejected handler must itself leave no state behind.
+	Direct bool `json:"direct,omitempty"`
 }
 
 type Schedule struct {
 	ID   string            `json:"id"`
 	Kind string            `json:"kind"`
 	TP   int64             `json:"tp"`
+	Ska  int64             `json:"ska"` // clock skew of chain A / B in ticks
+	Skb  int64             `json:"skb"`
 	Opt  string            `json:"opt,omitempty"` // "sameids": V2 path whose two clients have the same identifier
 	Acts []json.RawMessage `json:"acts"`
 }
@@ -123,6 +128,8 @@ type TraceLine struct {
 	I    int    `json:"i"`
 	Kind string `json:"kind"`
 	TP   int64  `json:"tp"`
+	Ska  int64  `json:"ska"`
+	Skb  int64  `json:"skb"`
 	A    json.RawMessage `json:"a"` // the schedule's action, verbatim
 	Res  string `json:"res"`
 	Err  string `json:"err,omitempty"` // diagnostic only, never asserted
@@ -161,6 +168,7 @@ type World struct {
 	logs       map[string][]LogEv
 	pending    map[string][]LogEv
 	reexport   map[string]string
+	skew       map[string]int64
 }
 
 func cp(c string) string {
@@ -170,14 +178,14 @@ func cp(c string) string {
 	return "A"
 }
 
-func NewWorld(t *testing.T, kind string, tp int64, opt string) *World {
+func NewWorld(t *testing.T, kind string, tp int64, opt string, ska, skb int64) *World {
 	w := &World{t: t, kind: kind, tp: tp,
 		ch: map[string]*ibctesting.TestChain{}, ep: map[string]*ibctesting.Endpoint{},
 		H0: map[string]int64{}, bt: map[string]map[int64]int64{"A": {}, "B": {}},
 		headers:    map[string]map[int64]*ibctm.Header{"A": {}, "B": {}},
 		commitDict: map[string]Pkt{}, ackDict: map[string][]string{},
 		logs: map[string][]LogEv{"A": {}, "B": {}}, pending: map[string][]LogEv{"A": {}, "B": {}},
-		reexport: map[string]string{},
+		reexport: map[string]string{}, skew: map[string]int64{"A": ska, "B": skb},
 	}
 	// keep set-up inside a few milliseconds of chain time so that nothing expires before the run starts
 	ibctesting.TimeIncrement = time.Millisecond
@@ -229,28 +237,41 @@ func NewWorld(t *testing.T, kind string, tp int64, opt string) *World {
 	if w.coord.CurrentTime.Sub(w.coord.CurrentTime.Truncate(time.Second)) >= 500*time.Millisecond {
 		t.Fatalf("set-up took too many blocks for the time model")
 	}
-	w.setTick(1)
 	for _, c := range []string{"A", "B"} {
+		w.setTick(c, 1)
 		w.ch[c].NextBlock()
 		w.archive(c)
 		w.H0[c] = int64(w.ch[c].LatestCommittedHeader.GetHeight().GetRevisionHeight())
-		w.bt[c][w.H0[c]] = 1
+		w.bt[c][w.H0[c]] = 1 + w.skew[c]
 	}
-	w.setTick(2)
 	for _, c := range []string{"A", "B"} {
+		w.setTick(c, 2)
 		res, errStr := w.updateClient(c, 0)
 		if res != "ok" {
 			t.Fatalf("initial client sync failed on %s: %s", c, errStr)
 		}
-		w.afterBlock(c, 2)
+		w.afterBlock(c, 2+w.skew[c])
 	}
 	w.now = 2
+	w.syncClocks()
 	return w
 }
 
 func (w *World) tickTime(k int64) time.Time { return w.T0.Add(time.Duration(k) * tickDur) }
 
-func (w *World) setTick(k int64) { w.coord.SetTime(w.tickTime(k)) }
+// setTick sets the clock for the next block of chain c to global tick k (+ the chain's skew).
+func (w *World) setTick(c string, k int64) {
+	w.coord.CurrentTime = w.tickTime(k + w.skew[c]).UTC()
+	w.ch[c].ProposedHeader.Time = w.coord.CurrentTime
+}
+
+// syncClocks gives every chain's pending header its own local time for the current global tick (read paths such
+// as Status() evaluate expiry at that time).
+func (w *World) syncClocks() {
+	for _, c := range []string{"A", "B"} {
+		w.ch[c].ProposedHeader.Time = w.tickTime(w.now + w.skew[c]).UTC()
+	}
+}
 
 // archive stores the header of the block just committed on c together with its tick.
 func (w *World) archive(c string) {
